@@ -128,9 +128,16 @@ func runConc(c ConcCase) (vkit.Info, error) {
 func runConcOnce(c ConcCase, cls *classSet) (vkit.Info, error) {
 	var info vkit.Info
 	s := simulate(c.Stores, c.Collide, c.Events)
-	f, err := newFixture(s.stores)
+	f, err := newFixture(s.stores, c.Enc)
+	if err == errFixture {
+		info.Inconclusive = true
+		return info, nil
+	}
 	if err != nil {
 		return info, err
+	}
+	if f.enc > 0 {
+		cls.add("encryption-" + encMethods[f.enc])
 	}
 	defer f.close()
 
